@@ -1,45 +1,84 @@
 //! Verification stand-in for hashbrown 0.13.2 (HashMap API subset used by tinylfu-cached's TTLTicker).
-//! An association list: at most one entry per key; `retain` visits every entry exactly once.
-//! This is an ASSUMED contract of the dependency, given executably.
+//!
+//! ASSUMED contract of the dependency, given executably: a map with at most one entry per key;
+//! `retain` visits every entry exactly once and keeps exactly those for which the closure
+//! returns true.  Storage is four named slots (no heap object, no loop, no symbolic address for
+//! CBMC); inserting a fifth key panics ("stand-in capacity exceeded").
 use std::borrow::Borrow;
 
+pub const SLOTS: usize = 4;
+
 pub struct HashMap<K, V> {
-    entries: Vec<(K, V)>,
+    s0: Option<(K, V)>,
+    s1: Option<(K, V)>,
+    s2: Option<(K, V)>,
+    s3: Option<(K, V)>,
 }
 
 impl<K: Eq, V> HashMap<K, V> {
-    pub fn new() -> Self { HashMap { entries: Vec::new() } }
+    pub fn new() -> Self { HashMap { s0: None, s1: None, s2: None, s3: None } }
+    fn slot(&self, i: usize) -> &Option<(K, V)> {
+        match i { 0 => &self.s0, 1 => &self.s1, 2 => &self.s2, 3 => &self.s3, _ => panic!("hashbrown stand-in: slot out of range") }
+    }
+    fn slot_mut(&mut self, i: usize) -> &mut Option<(K, V)> {
+        match i { 0 => &mut self.s0, 1 => &mut self.s1, 2 => &mut self.s2, 3 => &mut self.s3, _ => panic!("hashbrown stand-in: slot out of range") }
+    }
+    fn holds<Q: ?Sized + Eq>(&self, i: usize, key: &Q) -> bool where K: Borrow<Q> {
+        match self.slot(i) { Some(e) => e.0.borrow() == key, None => false }
+    }
     fn position<Q: ?Sized + Eq>(&self, key: &Q) -> Option<usize> where K: Borrow<Q> {
-        let mut i = 0;
-        while i < self.entries.len() {
-            if self.entries[i].0.borrow() == key { return Some(i); }
-            i += 1;
-        }
+        if self.holds(0, key) { return Some(0); }
+        if self.holds(1, key) { return Some(1); }
+        if self.holds(2, key) { return Some(2); }
+        if self.holds(3, key) { return Some(3); }
         None
+    }
+    fn free_slot(&self) -> Option<usize> {
+        if self.s0.is_none() { return Some(0); }
+        if self.s1.is_none() { return Some(1); }
+        if self.s2.is_none() { return Some(2); }
+        if self.s3.is_none() { return Some(3); }
+        None
+    }
+    /// verification-only: place an entry in a chosen slot
+    pub fn verif_insert_at(&mut self, slot: usize, key: K, value: V) {
+        assert!(self.position(&key).is_none());
+        assert!(self.slot(slot).is_none());
+        *self.slot_mut(slot) = Some((key, value));
     }
     pub fn insert(&mut self, key: K, value: V) -> Option<V> {
         match self.position(&key) {
-            Some(i) => Some(std::mem::replace(&mut self.entries[i].1, value)),
-            None => { self.entries.push((key, value)); None }
+            Some(i) => Some(std::mem::replace(&mut self.slot_mut(i).as_mut().unwrap().1, value)),
+            None => {
+                match self.free_slot() {
+                    Some(i) => { *self.slot_mut(i) = Some((key, value)); }
+                    None => panic!("hashbrown stand-in capacity exceeded"),
+                }
+                None
+            }
         }
     }
     pub fn remove<Q: ?Sized + Eq>(&mut self, key: &Q) -> Option<V> where K: Borrow<Q> {
-        match self.position(key) { Some(i) => Some(self.entries.remove(i).1), None => None }
+        match self.position(key) { Some(i) => self.slot_mut(i).take().map(|e| e.1), None => None }
     }
     pub fn get<Q: ?Sized + Eq>(&self, key: &Q) -> Option<&V> where K: Borrow<Q> {
-        match self.position(key) { Some(i) => Some(&self.entries[i].1), None => None }
+        match self.position(key) { Some(i) => self.slot(i).as_ref().map(|e| &e.1), None => None }
     }
     pub fn contains_key<Q: ?Sized + Eq>(&self, key: &Q) -> bool where K: Borrow<Q> { self.position(key).is_some() }
-    pub fn len(&self) -> usize { self.entries.len() }
-    pub fn is_empty(&self) -> bool { self.entries.is_empty() }
-    pub fn clear(&mut self) { self.entries.clear(); }
-    pub fn retain<F: FnMut(&K, &mut V) -> bool>(&mut self, mut f: F) {
-        let mut i = 0;
-        while i < self.entries.len() {
-            let keep = { let e = &mut self.entries[i]; f(&e.0, &mut e.1) };
-            if keep { i += 1; } else { self.entries.remove(i); }
-        }
+    pub fn len(&self) -> usize {
+        self.s0.is_some() as usize + self.s1.is_some() as usize + self.s2.is_some() as usize + self.s3.is_some() as usize
     }
-    pub fn iter(&self) -> impl Iterator<Item = (&K, &V)> { self.entries.iter().map(|e| (&e.0, &e.1)) }
+    pub fn is_empty(&self) -> bool { self.len() == 0 }
+    pub fn clear(&mut self) { self.s0 = None; self.s1 = None; self.s2 = None; self.s3 = None; }
+    fn retain_slot<F: FnMut(&K, &mut V) -> bool>(s: &mut Option<(K, V)>, f: &mut F) {
+        let keep = match s { Some(e) => f(&e.0, &mut e.1), None => true };
+        if !keep { *s = None; }
+    }
+    pub fn retain<F: FnMut(&K, &mut V) -> bool>(&mut self, mut f: F) {
+        Self::retain_slot(&mut self.s0, &mut f);
+        Self::retain_slot(&mut self.s1, &mut f);
+        Self::retain_slot(&mut self.s2, &mut f);
+        Self::retain_slot(&mut self.s3, &mut f);
+    }
 }
 impl<K: Eq, V> Default for HashMap<K, V> { fn default() -> Self { Self::new() } }
